@@ -38,7 +38,7 @@ ApplyDelta(p, delta) ==
      ELSE p[i]]
 
 Has(ev, k) == k \in DOMAIN ev
-Arith == {"AssignLower", "AddAssign", "SubAssign", "ScaleAssign", "DivAssign", "Add", "Sub", "Mul", "Scale", "Neg", "Apply"}
+Arith == {"AssignLower", "AddAssign", "SubAssign", "ScaleAssign", "DivAssign", "Add", "Sub", "Mul", "Scale", "Neg", "Apply", "LinComb"}
 Ctors == {"GridNew", "SupNew", "SplNew"}
 
 StepOK(pre, ev, post) ==
@@ -57,6 +57,7 @@ StepOK(pre, ev, post) ==
                       /\ \A k \in DOMAIN ev.rc : ev.rc[k][2] >= ev.rc[k][3]
                       /\ (ok /\ c.op \in {"Copy", "CopyAssign", "Move", "MoveAssign", "GetSupport", "GetGrid", "Destroy"} => TargetOK(pre, c, post))
                       /\ (c.op = "Eval" => ok /\ EvalPost(AsSpl(pre[c.src]), c.x, ev.val))
+                      /\ (c.op = "BF" /\ ~refuse => ok /\ ev.val = BilinearVal(FormOps(c.which)[1], FormOps(c.which)[2], AsSpl(pre[c.a]), AsSpl(pre[c.b]), <<>>))
      /\ For("C08") => (CrossGrid(c) => IF refuse THEN threw /\ ev.out_code = "DIFFERING_GRIDS" /\ post = pre
                                        ELSE ok /\ TargetOK(pre, c, post))
      /\ For("C03") => (c.op \in Arith /\ ~refuse => ok /\ TargetOK(pre, c, post))
